@@ -1,19 +1,25 @@
 """C08 — an interrupted single-file external-data save never damages an existing data file
 (DESIGN.md section 5, C08).
 
-Model: lean/IrVerif/Model/AtomicSave.lean (driver command `asave.run`).
+Model: lean/IrVerif/Model/AtomicSave.lean (driver commands `asave.run`, `asave.image`, `asave.writeat`,
+`asave.resolve`).
 
-Correspondence: a fault shim replaces, inside `onnx_ir.external_data` only, `os.replace/remove/
-rmdir`, `tempfile.mkdtemp`, `shutil.copymode` and `open` (-> counting file object); external
-tensors are a tracing subclass of `ir.ExternalTensor` (release / invalidate / load are events).
-For every generated save the real effect trace is compared with the model's effect list, then
-for EVERY effect index k (and mid-write) the save is re-run (a) with an `OSError` injected at k,
-(b) in a forked child that `os._exit`s at k, and the directory listing, file bytes / modes /
-inode identity, `ExternalTensor.valid()`, mmap state and `tobytes()` are compared with the
-model's predicted post-state.
+Correspondence: a fault shim replaces, inside `onnx_ir.external_data` only, `os.replace/remove/rmdir`
+(+ every other mutating os/shutil call as an unexpected effect), `tempfile.mkdtemp`, `shutil.copymode` and
+`open` (-> counting file object; worker handles of the parallel writer are numbered); external tensors
+are a tracing subclass of `ir.ExternalTensor` (release / invalidate / load are events). For every
+generated save the real effect trace is compared with the model's effect list, then for EVERY effect
+index k (and mid-write) the save is re-run (a) with an `OSError` injected at k, (a') for a third of
+the points with a `BaseException`, (a'') with `FileNotFoundError` at the clean-up effects (oracle only),
+(b) in a forked child that `os._exit`s at k, (c) with a second fault / a process exit while the handlers
+of the first failure run; directory listing, file bytes / modes / inode identity, symlinks,
+`ExternalTensor.valid()`, mmap state, `tobytes()` and the bytes embedded for small tensors are compared
+with the model's predicted post-state. Parallel-writer runs are compared on the schedule each run
+observed (model kind `writer`). Oracle-only: concurrent shard drivers, fd fast paths, symlinked directory
+components, a directory as destination, tensors that fail by themselves, os.path calls as fault points.
 
-Oracle (independent of the model): the English property evaluated on the real directory and
-the real tensor objects.
+Oracle (independent of the model): the English property evaluated on the real directory and the real
+tensor objects.
 """
 from __future__ import annotations
 
